@@ -543,6 +543,25 @@ func c17FailClosed(c *Ctx, reg *guardedGlobal) {
 	if nst == 0 {
 		r.Check("R17.4", "texttable/decoration", "EmptyDecoration is never assigned (stays the zero Decoration)", empty.Pos(), true, "")
 	}
+	// (b2) a name is turned into a decoration in one place only: SetDecorationNamed, which stores whatever the lookup
+	// gave - the empty decoration for an unknown name - so that rendering then refuses. A caller that looks names up
+	// itself and skips the unknown ones renders with whatever decoration was there before.
+	{
+		nuse := 0
+		for _, fn := range c.LibFuncs() {
+			if funcPkgPath(fn) == pkgPath("texttable/decoration") {
+				continue
+			}
+			eachInstr(fn, func(in ssa.Instruction) {
+				if staticCallee(in) != named {
+					return
+				}
+				nuse++
+				r.Check("R17.4", FuncName(fn), "decoration.Named is called only by SetDecorationNamed", in.Pos(), fn == setNamed, "a name is resolved outside the fail-closed setter: an unknown name can be passed over instead of making the table refuse to render")
+			})
+		}
+		r.Floor("R17.4", "uses of decoration.Named outside its package", nuse, 1)
+	}
 	// (c) SetDecorationNamed
 	{
 		fn := setNamed
